@@ -34,7 +34,9 @@ def plan(tier, seed):
     for di in range(ndocs):
         for o in ops:
             units.append(dict(hfile='history.py', fname='c15_history', args=(di, (o,))))
-        if tier == 'quick':
+        if tier == 'quick' and (di + seed) % 2:
+            pairs = []
+        elif tier == 'quick':
             # length 2: every structural edit with node material followed by every edit (incl. edits inside the new material)
             firsts = [o for j, o in enumerate(structural) if (j + di + seed) % 4 == 0]
             pairs = [(f, s) for f in firsts for s in ops]
@@ -56,7 +58,7 @@ def plan(tier, seed):
     return dict(units=units,
                 bounds={'documents': '7 twin-hole documents (argument texts symbolic letters, separator symbolic TEXT(1))',
                         'operations': '%d operation instances: delete / parent.remove / replace_with (string, copied node, possible twin) / rename (symbolic or colliding name) / string / args reverse, pop, append, insert, slice / insert at index 0..2 / append, on the first 4 nodes and 3 containers' % len(ops),
-                        'histories': 'all of length 1; length 2: %s%s' % ('structural edits with node material x every operation, (rotating quarter by document and seed), plus a rotating ninth of the other pairs' if tier == 'quick' else 'all pairs', '' if tier == 'quick' else '; length 3: structural x edit x edit subset'),
+                        'histories': 'all of length 1; length 2: %s%s' % ('structural edits with node material x every operation, (rotating quarter by document and seed, on every second document), plus a rotating ninth of the other pairs; every addition of node material x edit of the node just added, on all documents' if tier == 'quick' else 'all pairs', '' if tier == 'quick' else '; length 3: structural x edit x edit subset'),
                         'material': 'symbolic one-character strings and copies of nodes parsed elsewhere (\\n{\\m{1}}, \\a{H} with symbolic H)'},
                 outside=['histories longer than %d' % (2 if tier == 'quick' else 3), 'TexNode.all on edited trees'],
                 assumptions=['reference model: nested lists with identity-based edits and a serialiser (harness/history.py)'])
